@@ -57,6 +57,16 @@ impl<O: digest::generic_array::ArrayLength<u8>, B> digest::FixedOutput for Toy<O
 impl<O, B: digest::generic_array::ArrayLength<u8>> digest::BlockInput for Toy<O, B> {
     type BlockSize = B;
 }
+/// the RustCrypto hashers implement io::Write under the `std` feature; a caller-supplied hash may be expected to as well
+impl<O, B> std::io::Write for Toy<O, B> {
+    fn write(&mut self, buf: &[u8]) -> std::io::Result<usize> {
+        digest::Input::input(self, buf);
+        Ok(buf.len())
+    }
+    fn flush(&mut self) -> std::io::Result<()> {
+        Ok(())
+    }
+}
 impl<O, B> digest::Reset for Toy<O, B> {
     fn reset(&mut self) {
         *self = Toy::default();
